@@ -65,6 +65,9 @@ def scenarios(tier):
         S.append((f"window<response[{tag}]", dict(pre=one, workers=1, poll2=poll2, window=40, drains=[None], programs={"/r1": dict(body=big)}), 1 if q else 2))
         # above the high watermark: the producer parks and must be released
         S.append((f"above-watermark[{tag}]", dict(pre=one, workers=1, poll2=poll2, window=20, drains=[50, None], adj=dict(outbuf_high_watermark=50), programs={"/r1": dict(body=big, cl=False)}), 1 if q else 2))
+        # several wake-ups in a row, the last one needed to flush a response the worker could not send
+        three = (c04.req(1) + c04.req(2)).decode("latin-1")
+        S.append((f"three-requests,last-needs-flush[{tag}]", dict(pre=three, segments=[(c04.req(3).decode("latin-1"), None)], workers=1, poll2=poll2, window=300, drains=[None], programs={"/r3": dict(body=big)}), 1 if q else 2))
     # send_bytes thresholds (deprecated but supported setting)
     S.append(("send_bytes=50,small-response", dict(pre=two, workers=1, adj=dict(send_bytes=50), programs={"*": dict(body=["ab"])}), 1 if q else 2))
     S.append(("send_bytes=50,response=send_bytes", dict(pre=one, workers=1, adj=dict(send_bytes=50), window=10, drains=[None], programs={"/r1": dict(body=["y" * 50], cl=False)}), 1 if q else 2))
